@@ -521,6 +521,26 @@ func buildPlans(thorough bool) []plan {
 		}
 	}
 
+	// 4i. the write-error ending with an unresponsive peer, in the quick tier too: a client that never reads
+	// (300 x 100 KB answers fill the socket buffers and the outgoing queue, senders block), the write loop hits
+	// its 5 s write deadline and exits; teardown is accounted while the client still holds the connection (slow)
+	for _, p := range protos {
+		p := p
+		plans = append(plans, plan{mode: "flood", slow: true, make: func(r *rng.R) Script {
+			return Script{Proto: p, Labels: []Label{msg("init", 0, "none", ""), msg(startType(p), 2, "doc", "sub")}, End: "drop", Flood: 300, Mute: true}
+		}})
+	}
+
+	// 4j. a client that stops reading while a subscription with 100 KB events floods, pings while the outgoing
+	// queue is full, then resumes reading: the pong must be there (graphql-transport-ws; in graphql-ws the ping is
+	// an ignored frame, the events must all arrive)
+	for _, p := range protos {
+		sb := msg(startType(p), 1, "doc", "sub")
+		sb.Big = true
+		sc := Script{Proto: p, Labels: []Label{msg("init", 0, "none", ""), sb}, SlowPing: true, End: "client-close", Barrier: true}
+		plans = append(plans, plan{mode: "slow", slow: true, make: func(*rng.R) Script { return sc }})
+	}
+
 	// 5. keep-alive periods: the conversation waits 15 s (+ margin) per tick label, so these few run
 	// beside the worker pool from the start and are handed out last
 	for _, p := range protos {
